@@ -143,23 +143,24 @@ def to_munu(stripe, ra, dec):
 
 
 # ---- coordinate OBJECTS that are handed to several transforms (caller-object laws) -------------
-def make_icrs(ra, dec, which='skycoord'):
-    """an ICRS coordinate object (SkyCoord or bare frame); array-valued unless ra is a float"""
+def make_icrs(ra, dec, which='skycoord', form=None):
+    """an ICRS coordinate object (SkyCoord or bare frame); array-valued unless ra is a float; form = integer
+    dtype of the arrays handed to astropy"""
     import astropy.units as u
     from astropy.coordinates import ICRS, SkyCoord
-    ra = np.array(ra, dtype=float)
-    dec = np.array(dec, dtype=float)
+    ra = np.array(ra, dtype=float) if form is None else as_form(ra, form, True)
+    dec = np.array(dec, dtype=float) if form is None else as_form(dec, form, True)
     if which == 'frame':
         return ICRS(ra=ra * u.deg, dec=dec * u.deg)
     return SkyCoord(ra=ra * u.deg, dec=dec * u.deg, frame='icrs')
 
 
-def make_munu(stripe, mu, nu, which='skycoord'):
+def make_munu(stripe, mu, nu, which='skycoord', form=None):
     import astropy.units as u
     from astropy.coordinates import SkyCoord
     from pydl.pydlutils.coord import SDSSMuNu
-    mu = np.array(mu, dtype=float)
-    nu = np.array(nu, dtype=float)
+    mu = np.array(mu, dtype=float) if form is None else as_form(mu, form, True)
+    nu = np.array(nu, dtype=float) if form is None else as_form(nu, form, True)
     if which == 'frame':
         return SDSSMuNu(mu=mu * u.deg, nu=nu * u.deg, stripe=stripe)
     return SkyCoord(mu=mu * u.deg, nu=nu * u.deg, frame=SDSSMuNu(stripe=stripe))
@@ -189,16 +190,45 @@ def tr_icrs(obj):
         return obj.transform_to(ICRS())
 
 
-def a2x(a, latitude):
+def a2x(a, latitude, raw=False):
+    """raw: hand the array over with the dtype it has (integer forms)"""
     from pydl.pydlutils.mangle import angles_to_x
     with np.errstate(all='ignore'):
-        return angles_to_x(np.asarray(a, dtype=float), latitude=latitude)
+        return angles_to_x(np.asarray(a) if raw else np.asarray(a, dtype=float), latitude=latitude)
 
 
-def x2a(x, latitude):
+def x2a(x, latitude, raw=False):
     from pydl.pydlutils.mangle import x_to_angles
     with np.errstate(all='ignore'):
-        return x_to_angles(np.asarray(x, dtype=float), latitude=latitude)
+        return x_to_angles(np.asarray(x) if raw else np.asarray(x, dtype=float), latitude=latitude)
+
+
+# ---- numeric forms (SkyGeom.tla part 4b): the same integral VALUES handed over with integer types
+NP_FORMS = ['int8', 'uint8', 'int16', 'uint16', 'int32', 'uint32', 'int64', 'uint64']
+
+
+def as_form(v, form, array=False):
+    """the integral value(s) v in the given form: numpy array / numpy scalar of that dtype, or Python int"""
+    if form == 'float64':
+        return np.array(v, dtype=np.float64) if array else np.float64(v)
+    if form == 'pyint':
+        if array:
+            raise core.MachineryError('pyint is a scalar form')
+        return int(v)
+    a = np.array(v)
+    if not np.all(a == np.round(a)):
+        raise core.MachineryError('non-integral value %r for form %s' % (v, form))
+    a = np.round(a).astype(np.int64)
+    info = np.iinfo(form)
+    if a.min() < info.min or a.max() > info.max:
+        raise core.MachineryError('value %r does not fit %s' % (v, form))
+    return a.astype(form) if array else np.dtype(form).type(int(a))
+
+
+def pick_form(forms, n, array=False):
+    """rotate through the admissible forms by case number"""
+    fs = sorted(f for f in forms if not (array and f == 'pyint'))
+    return fs[n % len(fs)] if fs else None
 
 
 # ------------------------------------------------------------------ spec -> code: replay of TLC's cases
@@ -218,16 +248,23 @@ def replay_stripe(c, exp):
     from pydl.pydlutils.coord import SDSSMuNu, stripe_to_eta, stripe_to_incl
     s = c['stripe']
     obs = {}
-    try:
-        obs['eta'] = float(stripe_to_eta(s))
-        obs['incl'] = float(stripe_to_incl(s))
-        fr = SDSSMuNu(stripe=s)
-        obs['frame_incl'] = float(fr.incl.deg)
-        obs['node'] = float(fr.node.to('deg').value)
-    except Exception as ex:
-        return False, {'exc': repr(ex)}, None
-    good = (Fraction(obs['eta']) * 10 == exp['eta10'] and Fraction(obs['incl']) * 10 == exp['incl10'] and
-            Fraction(obs['frame_incl']) * 10 == exp['incl10'] and Fraction(obs['node']) * 10 == exp['node10'])
+    good = True
+    for form in ['pyint'] + sorted(f for f in exp['forms'] if f != 'pyint'):       # every integer form TLC admits
+        sv = as_form(s, form)
+        o = {}
+        try:
+            o['eta'] = float(stripe_to_eta(sv))
+            o['incl'] = float(stripe_to_incl(sv))
+            fr = SDSSMuNu(stripe=sv)
+            o['frame_incl'] = float(fr.incl.deg)
+            o['node'] = float(fr.node.to('deg').value)
+        except Exception as ex:
+            return False, {'exc': repr(ex), 'stripe_given_as': form}, None
+        g = (Fraction(o['eta']) * 10 == exp['eta10'] and Fraction(o['incl']) * 10 == exp['incl10'] and
+             Fraction(o['frame_incl']) * 10 == exp['incl10'] and Fraction(o['node']) * 10 == exp['node10'])
+        if not obs or (good and not g):
+            obs = dict(o, stripe_given_as=form)
+        good = good and g
     return good, obs, None
 
 
@@ -268,6 +305,17 @@ def _anchor_eval(stripe, direction, lon, lat, shape, cache):
         now = coord_values(obj)
         kept = (now[0] == lon) & (now[1] == lat)
         shok[:] = res.shape == (n,)
+    elif isinstance(shape, tuple) and shape and shape[0] == 'int':
+        # integer-typed coordinate arrays (whole degrees) and an integer-typed stripe number
+        _, form, sform = shape
+        sv = as_form(stripe, sform)
+        obj = make_munu(sv, lon, lat, form=form) if direction == 'fwd' else make_icrs(lon, lat, form=form)
+        for _ in range(2):
+            res = tr_icrs(obj) if direction == 'fwd' else tr_munu(obj, sv)
+        glon, glat = coord_values(res)
+        now = coord_values(obj)
+        kept = (now[0] == lon) & (now[1] == lat)
+        shok[:] = res.shape == (n,)
     elif shape == 'scalar':
         for j in range(n):
             obj = build(lon[j], lat[j])
@@ -302,7 +350,8 @@ def replay_anchor_group(stripe, direction, group, cache=None, shape=None):
     lon = [e['src']['lon'] / 10.0 for _, e in group]
     lat = [e['src']['lat'] / 10.0 for _, e in group]
     cache = {} if cache is None else cache
-    form = '1-D array' if shape is None else shape if shape == 'scalar' else 'array of shape %s' % (tuple(shape),)
+    form = ('1-D array' if shape is None else shape if shape == 'scalar' else
+            '%s array, stripe as %s' % (shape[1], shape[2]) if shape[0] == 'int' else 'array of shape %s' % (tuple(shape),))
     try:
         glon, glat, kept, shok = _anchor_eval(stripe, direction, lon, lat, shape, cache)
     except Exception as ex:
@@ -323,22 +372,31 @@ def replay_anchor_group(stripe, direction, group, cache=None, shape=None):
     return out
 
 
-def replay_vecanchor(c, exp):
+def replay_vecanchor(c, exp, n=0):
     ang = np.array([[exp['angles'][0] / 10.0, exp['angles'][1] / 10.0]])
     want = np.array([list(exp['x'])], dtype=float)
-    obs = {}
-    try:
-        x = a2x(ang, c['latitude'])
-        back = x2a(want, c['latitude'])
-    except Exception as ex:
-        return False, {'exc': repr(ex)}, None
-    obs['x'] = [float(v) for v in x[0]]
-    obs['angles'] = [float(v) for v in back[0]]
-    good = x.shape == (1, 3) and back.shape == (1, 2) and bool(np.all(np.abs(x - want) <= 1e-15))
-    lat_back = back[0, 1] if c['latitude'] else 90.0 - back[0, 1]
-    d = ndeg(deg_sep(back[0, 0], lat_back, c['lon'] / 10.0, c['lat'] / 10.0)[()]) if not np.isnan(back).any() else CAP
-    obs['disc_ndeg'] = d
-    return good and d <= exp['tol'], obs, None
+    good, obs = True, None
+    # float64, and every integer type TLC admits for the angles / for the vector components
+    for af, xf in [(None, None)] + [(f if f in exp['aforms'] else None, f if f in exp['xforms'] else None) for f in NP_FORMS]:
+        if (af, xf) == (None, None) and obs is not None:
+            continue
+        o = {'angles_given_as': af or 'float64', 'vector_given_as': xf or 'float64'}
+        try:
+            x = a2x(ang if af is None else as_form(ang, af, True), c['latitude'], raw=True)
+            back = x2a(want if xf is None else as_form(want, xf, True), c['latitude'], raw=True)
+        except Exception as ex:
+            return False, dict(o, exc=repr(ex)), None
+        o['x'] = [float(v) for v in x[0]]
+        o['angles'] = [float(v) for v in back[0]]
+        g = x.shape == (1, 3) and back.shape == (1, 2) and bool(np.all(np.abs(x - want) <= 1e-15))
+        lat_back = back[0, 1] if c['latitude'] else 90.0 - back[0, 1]
+        d = ndeg(deg_sep(back[0, 0], lat_back, c['lon'] / 10.0, c['lat'] / 10.0)[()]) if not np.isnan(back).any() else CAP
+        o['disc_ndeg'] = d
+        g = g and d <= exp['tol']
+        if obs is None or (good and not g):
+            obs = o
+        good = good and g
+    return good, obs, None
 
 
 def dist_args(c):
@@ -346,33 +404,49 @@ def dist_args(c):
     return (ea_float(c['p']['ra'], k), ea_float(c['p']['dec'], k), ea_float(c['q']['ra'], k), ea_float(c['q']['dec'], k))
 
 
-def replay_dist(c, exp):
+def replay_dist(c, exp, n=0):
     u = c['units']
     a = dist_args(c)
     want = exp['scale'] * ea_value(exp['d'], c['k'])
-    try:
-        got = float(call_gcirc(np.float64(a[0]), np.float64(a[1]), np.float64(a[2]), np.float64(a[3]), u))
-        rev = float(call_gcirc(np.float64(a[2]), np.float64(a[3]), np.float64(a[0]), np.float64(a[1]), u))
-    except Exception as ex:
-        return False, {'exc': repr(ex)}, None
-    obs = {'gcirc': got, 'reversed': rev, 'args': list(a), 'expected': float(want)}
-    fails = []
-    if got != got or rev != rev:
-        fails.append('NaN')
-    else:
-        if got < 0 or L(got) > HALF_OUT[u] * (1 + L(exp['slackppb']) * L(1e-9)):
-            fails.append('Range')
-        if abs(got - rev) > exp['tolppb'] * 1e-9 * max(abs(got), abs(rev)):
-            fails.append('Symmetric')
-        if exp['zero'] and got != 0.0:
-            fails.append('ZeroOnDiagonal')
-        if exp['demand']:
-            err = abs(Fraction(got) - want)
-            obs['rel_err'] = float(err / want)
-            if err > Fraction(exp['tolppb'], 10 ** 9) * want:
-                fails.append('Exact')
-    obs['fails'] = fails
-    dev = 'D-C18-1' if (fails == ['Exact'] and exp['dev1']) else None
+    calls = [('float64', False, [np.float64(v) for v in a])]
+    form = pick_form(exp.get('forms', ()), n)
+    if form:                     # the same values with an integer type: scalars, and (numpy types) 2-element arrays
+        calls.append((form, False, [as_form(v, form) for v in a]))
+        if form != 'pyint':
+            calls.append((form, True, [as_form([v, v], form, True) for v in a]))
+    obs, fails = None, []
+    for fm, arr, args in calls:
+        try:
+            got = call_gcirc(args[0], args[1], args[2], args[3], u)
+            rev = call_gcirc(args[2], args[3], args[0], args[1], u)
+            if arr:
+                got, rev = np.asarray(got, dtype=float), np.asarray(rev, dtype=float)
+                if got.shape != (2,) or rev.shape != (2,) or not (got[0] == got[1] or (got[0] != got[0] and got[1] != got[1])):
+                    return False, {'exc': 'array result %r' % (got,), 'given_as': fm, 'args': list(a)}, None
+                got, rev = got[0], rev[0]
+            got, rev = float(got), float(rev)
+        except Exception as ex:
+            return False, {'exc': repr(ex), 'given_as': fm + (' arrays' if arr else ' scalars'), 'args': list(a)}, None
+        o = {'gcirc': got, 'reversed': rev, 'args': list(a), 'expected': float(want), 'given_as': fm + (' arrays' if arr else ' scalars')}
+        f = []
+        if got != got or rev != rev or math.isinf(got) or math.isinf(rev):
+            f.append('NaN' if (got != got or rev != rev) else 'Infinite')
+        else:
+            if got < 0 or L(got) > HALF_OUT[u] * (1 + L(exp['slackppb']) * L(1e-9)):
+                f.append('Range')
+            if abs(got - rev) > exp['tolppb'] * 1e-9 * max(abs(got), abs(rev)):
+                f.append('Symmetric')
+            if exp['zero'] and got != 0.0:
+                f.append('ZeroOnDiagonal')
+            if exp['demand']:
+                err = abs(Fraction(got) - want)
+                o['rel_err'] = float(err / want)
+                if err > Fraction(exp['tolppb'], 10 ** 9) * want:
+                    f.append('Exact')
+        o['fails'] = f
+        if obs is None or (not fails and f):
+            obs, fails = o, f
+    dev = 'D-C18-1' if (fails == ['Exact'] and exp['dev1'] and obs['given_as'].startswith('float64')) else None
     return not fails, obs, dev
 
 
@@ -399,8 +473,8 @@ def describe(c, exp, obs):
     k = c['kind']
     if k == 'dist':
         a = obs.get('args') or dist_args(c)
-        return ('gcirc(%r, %r, %r, %r, units=%d) = %r, exact separation %r (family %s, failing: %s)' %
-                (a[0], a[1], a[2], a[3], c['units'], obs.get('gcirc'), obs.get('expected'), c['fam'],
+        return ('gcirc(%r, %r, %r, %r, units=%d) [arguments given as %s] = %r, exact separation %r (family %s, failing: %s)' %
+                (a[0], a[1], a[2], a[3], c['units'], obs.get('given_as'), obs.get('gcirc'), obs.get('expected'), c['fam'],
                  ','.join(obs.get('fails', [])) or obs.get('exc')))
     if k == 'anchor':
         return ('stripe %d %s [%s]: (%s, %s) deg -> observed (%r, %r), specified (%s, %s), off by %s ndeg (tol %s)%s' %
@@ -412,7 +486,7 @@ def describe(c, exp, obs):
     if k == 'stripe':
         return 'stripe %d: specified eta %s incl %s node %s, observed %s' % (
             c['stripe'], exp['eta10'] / 10.0, exp['incl10'] / 10.0, exp['node10'] / 10.0, obs)
-    return 'axis point lon %s lat %s latitude=%s: specified vector %s, observed %s' % (
+    return 'axis point lon %s lat %s latitude=%s (angles_to_x / x_to_angles): specified vector %s, observed %s' % (
         c['lon'] / 10.0, c['lat'] / 10.0, c['latitude'], list(exp['x']), obs)
 
 
@@ -433,12 +507,13 @@ def replay_cases(ctx, cases, geo):
             continue
         if k == 'stripe':
             geo.setdefault('incl10', {})[c['stripe']] = exp['incl10']
+            geo.setdefault('stripe_forms', {})[c['stripe']] = exp['forms']
             geo['node10'] = exp['node10']
             results.append((c, exp) + replay_stripe(c, exp))
         elif k == 'vecanchor':
             results.append((c, exp) + replay_vecanchor(c, exp))
         elif k == 'dist':
-            results.append((c, exp) + replay_dist(c, exp))
+            results.append((c, exp) + replay_dist(c, exp, len(results)))
         else:
             raise core.MachineryError('unknown case kind %r' % (k,))
     # anchors whose source point is the same for every stripe go first, in a fixed order, so that
@@ -459,8 +534,12 @@ def replay_cases(ctx, cases, geo):
             forms = [replay_anchor_group(s, d, part, cache), replay_anchor_group(s, d, part, cache, anchor_shape(s, d))]
             sub = [j for j in range(len(part)) if (j + s) % 4 == 0]
             scal = dict(zip(sub, replay_anchor_group(s, d, [part[j] for j in sub], cache, 'scalar'))) if sub else {}
+            form = NP_FORMS[(s + (1 if d == 'inv' else 0)) % len(NP_FORMS)]
+            sform = pick_form(geo['stripe_forms'][s], s + (2 if d == 'inv' else 0))
+            isub = [j for j in range(len(part)) if form in part[j][1]['forms']]
+            ints = dict(zip(isub, replay_anchor_group(s, d, [part[j] for j in isub], cache, ('int', form, sform)))) if isub else {}
             for j, (c, exp) in enumerate(part):
-                cands = [f[j] for f in forms] + ([scal[j]] if j in scal else [])
+                cands = [f[j] for f in forms] + ([scal[j]] if j in scal else []) + ([ints[j]] if j in ints else [])
                 bad = [r for r in cands if not r[0]]
                 results.append((c, exp) + (bad[0] if bad else cands[0]))
                 ctx.evaluated(len(cands) - 1, 'replay-anchor-shaped')
@@ -1052,6 +1131,181 @@ def shape_records(rng, stripes, greps, areps):
     return recs, info
 
 
+# ---- FormIndependent: integer-typed arguments against the same values as float64
+def _maxdisc(got, ref, unit):
+    got = np.asarray(got, dtype=float).reshape(-1)
+    ref = np.asarray(ref, dtype=float).reshape(-1)
+    if got.shape != ref.shape:
+        return CAP, False
+    if np.isnan(got).any() or np.isnan(ref).any():
+        return CAP, True
+    if unit == 'ppb':
+        return max([ppb(g, r) if abs(r) >= abs(g) else ppb(r, g) for g, r in zip(got, ref)] or [0]), False
+    return max([ndeg(g - r) for g, r in zip(got, ref)] or [0]), False
+
+
+def form_probe(inf):
+    """one call with integer-typed arguments (inf['form']; arrays or scalars) and the same call with float64 /
+    Python-int arguments; returns the record"""
+    from pydl.pydlutils.coord import stripe_to_eta, stripe_to_incl
+    from pydl.pydlutils.mangle import cap_distance
+    fn, form, arr = inf['fn'], inf['form'], inf['arr']
+    rec = {'kind': 'form', 'fn': fn, 'form': form, 'arr': arr, 'raised': False, 'nan': False, 'polar': False, 'disc': CAP}
+    try:
+        with np.errstate(all='ignore'):
+            if fn == 'gcirc':
+                a = inf['args']
+                if arr:
+                    got = call_gcirc(*[as_form(v, form, True) for v in a], inf['units'])
+                    ref = call_gcirc(*[np.array(v, dtype=float) for v in a], inf['units'])
+                else:
+                    got = [call_gcirc(*[as_form(v[j], form) for v in a], inf['units']) for j in range(len(a[0]))]
+                    ref = [call_gcirc(*[float(v[j]) for v in a], inf['units']) for j in range(len(a[0]))]
+                rec['disc'], rec['nan'] = _maxdisc(got, ref, 'ppb')
+            elif fn in ('radec_to_munu', 'munu_to_radec'):
+                sv = as_form(inf['stripe'], inf['sform'])
+                if fn == 'radec_to_munu':
+                    g = coord_values(tr_munu(make_icrs(inf['lon'], inf['lat'], form=form), sv))
+                    r = coord_values(tr_munu(make_icrs(inf['lon'], inf['lat']), inf['stripe']))
+                else:
+                    g = coord_values(tr_icrs(make_munu(sv, inf['lon'], inf['lat'], form=form)))
+                    r = coord_values(tr_icrs(make_munu(inf['stripe'], inf['lon'], inf['lat'])))
+                rec['nan'] = bool(np.isnan([g, r]).any())
+                rec['polar'] = bool((np.abs(np.array(inf['lat'])) > 89.9).any() or (np.abs(r[1][~np.isnan(r[1])]) > 89.9).any())
+                if not rec['nan']:
+                    rec['disc'] = max(ndeg(x) for x in deg_sep(g[0], g[1], r[0], r[1]))
+            elif fn in ('stripe_to_eta', 'stripe_to_incl'):
+                f = stripe_to_eta if fn == 'stripe_to_eta' else stripe_to_incl
+                rec['disc'], rec['nan'] = _maxdisc([f(as_form(inf['stripe'], form))], [f(int(inf['stripe']))], 'ndeg')
+            elif fn == 'angles_to_x':
+                g = a2x(as_form(inf['arr2'], form, True), inf['latitude'], raw=True)
+                r = a2x(np.array(inf['arr2'], dtype=float), inf['latitude'])
+                rec['nan'] = bool(np.isnan(g).any())
+                if g.shape == r.shape and not rec['nan']:
+                    rec['disc'] = max(ndeg(x) for x in np.sqrt(((np.asarray(g, dtype=L) - np.asarray(r, dtype=L)) ** 2).sum(1)) * R2D)
+            elif fn == 'x_to_angles':
+                g = x2a(as_form(inf['arr2'], form, True), inf['latitude'], raw=True)
+                r = x2a(np.array(inf['arr2'], dtype=float), inf['latitude'])
+                rec['nan'] = bool(np.isnan(g).any())
+                conv = (lambda t: t) if inf['latitude'] else (lambda t: 90.0 - t)
+                rec['polar'] = True          # axis vectors include the poles
+                if g.shape == r.shape and not rec['nan']:
+                    rec['disc'] = max(ndeg(x) for x in deg_sep(g[:, 0], conv(g[:, 1]), r[:, 0], conv(r[:, 1])))
+            else:
+                g = cap_distance(as_form(inf['x'], form, True), as_form(inf['cm'], form), as_form(inf['arr2'], form, True))
+                r = cap_distance(np.array(inf['x'], dtype=float), float(inf['cm']), np.array(inf['arr2'], dtype=float))
+                rec['polar'] = True          # arccos of +-1 for points on the axis of the cap
+                rec['disc'], rec['nan'] = _maxdisc(g, r, 'ndeg')
+    except Exception as ex:
+        rec['raised'] = True
+        inf['exc'] = repr(ex)
+    return rec
+
+
+def form_records(rng, reps, stripes):
+    recs, info = [], []
+
+    def emit(inf):
+        recs.append(form_probe(inf))
+        info.append(inf)
+
+    def rng_int(form, lo, hi):
+        if form != 'pyint':
+            ii = np.iinfo(form)
+            lo, hi = max(lo, ii.min), min(hi, ii.max)
+        return rng.randint(min(lo, hi), hi)
+
+    for rep in range(reps):
+        for form in NP_FORMS + ['pyint']:
+            signed = form == 'pyint' or np.iinfo(form).min < 0
+            # ---- gcirc, three conventions; pairs in descending order, across RA 0, antipodal, at the poles
+            for units in UNITS:
+                ramax, half, decmax = {0: (6, 3, 1), 1: (23, 12, 90), 2: (359, 180, 90)}[units]
+                ra1 = [rng_int(form, 0, ramax) for _ in range(4)] + [min(10, ramax), 0, 1, rng_int(form, 0, half - 1)]
+                ra2 = [rng_int(form, 0, ramax) for _ in range(4)] + [min(9, ramax), rng_int(form, half, ramax), 0, 0]
+                ra2[7] = ra1[7] + half if units else ra1[7]
+                dec1 = [rng_int(form, -decmax, decmax) for _ in range(4)] + [1, 0, decmax, rng_int(form, 0, decmax if signed else 0)]
+                dec2 = [rng_int(form, -decmax, decmax) for _ in range(4)] + [0, 1, rng_int(form, -decmax, decmax), 0]
+                dec2[7] = -dec1[7]
+                if form != 'pyint' and max(ra2) > np.iinfo(form).max:
+                    ra2[7], dec2[7] = ra1[7], dec1[7]
+                for arr in ((True, False) if form != 'pyint' else (False,)):
+                    emit({'probe': 'form', 'fn': 'gcirc', 'form': form, 'arr': arr, 'units': units, 'args': [ra1, dec1, ra2, dec2]})
+            if form == 'pyint':
+                continue
+            # ---- the transforms: whole-degree coordinate arrays, integer-typed stripe number
+            s = stripes[(rep * 9 + NP_FORMS.index(form)) % len(stripes)]
+            for fn in ('radec_to_munu', 'munu_to_radec'):
+                lon = [rng_int(form, 0, 359) for _ in range(6)] + [95, 0]
+                lat = [rng_int(form, -89, 89) for _ in range(6)] + [0, rng_int(form, 0, 90)]
+                emit({'probe': 'form', 'fn': fn, 'form': form, 'arr': True, 'stripe': s, 'sform': NP_FORMS[(rep + NP_FORMS.index(form)) % 8],
+                      'lon': lon, 'lat': lat})
+            for fn in ('stripe_to_eta', 'stripe_to_incl'):
+                emit({'probe': 'form', 'fn': fn, 'form': form, 'arr': False, 'stripe': s})
+            # ---- angles <-> vectors and cap_distance
+            for latitude in (False, True):
+                ang = [[rng_int(form, 0, 359), rng_int(form, -90, 90) if latitude else rng_int(form, 0, 180)] for _ in range(6)]
+                ang += [[90, 0 if latitude else 90], [0, 90 if latitude else 0]]
+                emit({'probe': 'form', 'fn': 'angles_to_x', 'form': form, 'arr': True, 'latitude': latitude, 'arr2': ang})
+                vec = [[1, 0, 0], [0, 1, 0], [0, 0, 1]] + ([[-1, 0, 0], [0, -1, 0], [0, 0, -1]] if signed else [])
+                rng.shuffle(vec)
+                emit({'probe': 'form', 'fn': 'x_to_angles', 'form': form, 'arr': True, 'latitude': latitude, 'arr2': vec})
+            axis = rng.choice([[0, 0, 1], [1, 0, 0], [0, 1, 0]] + ([[0, 0, -1], [-1, 0, 0]] if signed else []))
+            cm = rng.choice([1, 2] + ([-1] if signed else []))
+            pts = [[rng_int(form, 0, 359), rng_int(form, -90, 90)] for _ in range(6)] + [[0, 0], [90, 0]]
+            emit({'probe': 'form', 'fn': 'cap_distance', 'form': form, 'arr': True, 'x': axis, 'cm': cm, 'arr2': pts})
+            emit({'probe': 'form', 'fn': 'cap_distance', 'form': form, 'arr': True, 'x': axis, 'cm': cm,
+                  'arr2': [[1, 0, 0], [0, 1, 0], [0, 0, 1]]})
+    return recs, info
+
+
+def falsify(rec, k):
+    """one observed field of an accepted record pushed beyond what the law admits (binding self-test)"""
+    r = json_copy(rec)
+    kind = r['kind']
+    if kind == 'gc':
+        m = k % 4
+        if m == 0:
+            r['nan'][k % 3] = True
+        elif m == 1:
+            r['sym'][k % 3] = 5000
+        elif m == 2:
+            r['neg'][k % 3] = True
+        else:
+            if r['ident']:
+                r['zero'][k % 3] = False
+            elif r['uas'] >= 1 and (r['samera'] or r['colatbin'] >= -18 or r['sepbin'] >= -5) and (not r['seam'] or r['sepbin'] >= -18):
+                r['vec'][k % 3] = 5000
+            else:
+                r['over'][k % 3] = 7
+    elif kind in ('rt', 'iso', 'nu0'):
+        if k % 2:
+            r['disc'] = 20000
+        else:
+            r['nan'] = True
+    elif kind == 'stripe':
+        r[['eta10', 'incl10', 'frameincl10', 'node10'][k % 4]] += 25
+    elif kind == 'vec':
+        r[['disc', 'vdisc'][k % 2]] = 20000
+    elif kind == 'unch':
+        r['same'] = False
+    elif kind == 'shape':
+        if k % 3 == 0:
+            r['shapeok'] = False
+        elif k % 3 == 1:
+            r['raised'] = True
+        else:
+            r['disc'] = 20000
+    elif kind == 'form':
+        r['disc'] = 20000
+    return r
+
+
+def json_copy(x):
+    import json
+    return json.loads(json.dumps(x))
+
+
 def judge(ctx, recs, minper, label):
     """Hand the records to Trace_SkyGeom.  Returns {i: (ok, why, trig, dev)}; i = 0 is the non-vacuity verdict."""
     import os
@@ -1106,7 +1360,13 @@ def run(ctx):
         'exact families use coordinates b/8 + m/2^k that are exactly representable, so the separation TLC computes is the '
         'separation of the floats handed to gcirc',
         'relative 1e-6 is not demanded in the two unresolvable corners named in the explanation',
-        'abstraction: discrepancies rounded up to integer ppb / nano-degrees, capped at 2e9']
+        'abstraction: discrepancies rounded up to integer ppb / nano-degrees, capped at 2e9',
+        'integer-typed arguments (int8..uint64 arrays and numpy scalars, Python ints) are in the domain wherever the values are '
+        'integral: "all point pairs / all angle arrays" does not restrict the numeric type; TLC decides which forms a case admits',
+        'observation only, outside the statement: x_to_angles divides z by the SQUARED norm (points**2).sum(1), so for non-unit '
+        'vectors the polar angle is wrong ([1,2,2] gives 77.16 instead of 48.19 deg); the statement is about angles <-> UNIT '
+        'vectors, for which r = r^2 = 1, so only (rounded) unit vectors are submitted and nothing is demanded of non-unit ones',
+        'stripe_to_eta / stripe_to_incl are given scalar stripes only (the unchanged code does not take arrays; not in the statement)']
     if np.finfo(L).nmant < 63:
         raise core.MachineryError('numpy longdouble has only %d mantissa bits' % np.finfo(L).nmant)
     cfg = 'MC_SkyGeom_quick.cfg' if ctx.quick else 'MC_SkyGeom_thorough.cfg'
@@ -1130,6 +1390,8 @@ def run(ctx):
     shrecs, shinfo = shape_records(rng, sorted(rng.sample(range(91), 12)) if ctx.quick else list(range(91)),
                                    2 if ctx.quick else 18, 5 if ctx.quick else 50)
     mrecs, minfo = mrecs + shrecs, minfo + shinfo
+    frecs, finfo = form_records(rng, 6 if ctx.quick else 52, sorted(rng.sample(range(91), 12)) if ctx.quick else list(range(91)))
+    mrecs, minfo = mrecs + frecs, minfo + finfo
     recs = grecs + srecs + mrecs + vrecs
     verdict = judge(ctx, recs, 10 if ctx.quick else 100, ctx.tier)
     ok0, why0, _, _ = verdict[0]
@@ -1169,6 +1431,15 @@ def run(ctx):
     ctx.sample({'law_instances_judged_by_TLC': tally})
     ctx.sample({'recorded_gcirc_probe': grecs[0], 'pair': pairs[0]})
     ctx.sample({'recorded_munu_probe': mrecs[0], 'inputs': minfo[0]})
+    # ---- binding self-test: accepted records with ONE observed field falsified must all be rejected -------------
+    accepted = [k for k in range(len(recs)) if verdict[k + 1][0]]
+    step = max(1, len(accepted) // (220 if ctx.quick else 300))
+    by_kind = {}
+    for k in accepted:
+        by_kind.setdefault(recs[k]['kind'], []).append(k)
+    chosen = accepted[::step] + [ks[j] for ks in by_kind.values() for j in range(min(8, len(ks)))]
+    fals = [falsify(recs[k], n) for n, k in enumerate(chosen)]
+    core.binding_selftest(ctx, 'Trace_SkyGeom', fals, 'recorded_probes', extra_env={'VERIF_NOCOUNTS': '1', 'VERIF_MINPER': '0'})
     ctx.exhaustive = False
 
 
@@ -1185,6 +1456,7 @@ def replay(ctx, case):
         if c['kind'] == 'anchor':
             sh = (case.get('observed') or {}).get('shape')
             forms = [None, 'scalar'] + ([tuple(sh)] if isinstance(sh, list) else list(ANCHOR_SHAPES[:3]))
+            forms += [('int', f, 'pyint' if k % 2 else f) for k, f in enumerate(NP_FORMS) if f in exp.get('forms', ())]
             good, obs, dev = True, None, None
             for f in forms:
                 g, o, dv = replay_anchor_group(c['stripe'], c['dir'], [(c, exp)], None, f)[0]
@@ -1198,7 +1470,12 @@ def replay(ctx, case):
             exp = dict(exp, angles=list(exp['angles']), x=list(exp['x']))
             good, obs, dev = replay_vecanchor(c, exp)
         else:
-            good, obs, dev = replay_dist(c, exp)
+            good, obs, dev = True, None, None
+            for n in range(max(1, len(exp.get('forms', ())))):
+                g, o, dv = replay_dist(c, exp, n)
+                if obs is None or (good and not g):
+                    obs, dev = o, dv
+                good = good and g
         print('replayed case:', c, '\nspecified:', exp, '\nobserved:', obs)
         if not good:
             ctx.violation(case, finding=dev)
@@ -1229,6 +1506,8 @@ def _reprobe(inf, old):
             if r['kind'] == old['kind'] and r.get('fn') == old.get('fn'):
                 last = r
         return last
+    if k == 'form':
+        return form_probe(dict(inf))
     if k == 'shape-transform':
         return transform_shape_probe(inf['fn'], inf['stripe'], inf['which'], tuple(inf['shape']), inf['lon'], inf['lat'])[0]
     if k == 'shape-gcirc':
